@@ -590,15 +590,20 @@ static json dump_keys(econf_file *kf, const char *group, bool ext) {
   lib_enter(); econf_freeArray(keys); lib_leave();
   return r;
 }
-static json dump_obj(econf_file *kf, bool ext) {
-  json r = json::object();
-  if (!kf) { r["null"] = true; return r; }
+static void dump_head(econf_file *kf, json &r) {
   lib_enter();
   char dl = econf_delimiter_tag(kf), cm = econf_comment_tag(kf);
   char *path = econf_getPath(kf);
   lib_leave();
   r["delim"] = (int)(unsigned char)dl; r["comment"] = (int)(unsigned char)cm; r["path"] = J(path);
   lib_enter(); free(path); lib_leave();
+}
+// order 0: tags and path first, then the listings; order 1: listings and values first, tags and path last.
+// (A query that changes what a DIFFERENT query answers later is only visible if the other one was observed before it.)
+static json dump_obj(econf_file *kf, bool ext, int order = 0) {
+  json r = json::object();
+  if (!kf) { r["null"] = true; return r; }
+  if (order == 0) dump_head(kf, r);
   size_t ng = 0; char **groups = nullptr;
   lib_enter(); econf_err rc = econf_getGroups(kf, &ng, &groups); lib_leave();
   r["groups_rc"] = (int)rc;
@@ -609,6 +614,7 @@ static json dump_obj(econf_file *kf, bool ext) {
     lib_enter(); econf_freeArray(groups); lib_leave();
   }
   r["groups"] = gl;
+  if (order != 0) dump_head(kf, r);
   return r;
 }
 
@@ -846,7 +852,7 @@ static json exec_op(TaskCtx *t, const json &op) {
     if (op.contains("delim")) econf_set_delimiter_tag(kf, (char)I(op, "delim"));
     if (op.contains("comment")) econf_set_comment_tag(kf, (char)I(op, "comment"));
   } else if (o == "dump") {
-    r = dump_obj(slot(t, op, "k"), op.value("ext", true));
+    r = dump_obj(slot(t, op, "k"), op.value("ext", true), op.value("order", 0));
   } else if (o == "exercise") {
     r = exercise_obj(slot(t, op, "k"));
   } else if (o == "dumpHistory") {
